@@ -586,7 +586,11 @@ impl<'a, 'pat, P: Pe<'a>> Matches<'pat, P> {
 		// Clamp the slice to the expected input scan range
 		self.range.start = cmp::max(base, self.range.start);
 		let start = self.range.start - base;
-		let end = cmp::min(base + slice.len() as u32, self.range.end) - base;
+		let end = cmp::min(base.saturating_add(slice.len() as u32), self.range.end) - base;
+		// Nothing to scan when the range starts beyond the bytes available here
+		if start >= end {
+			return false;
+		}
 
 		self.strategy(qsbuf, &slice[start as usize..end as usize], save)
 	}
